@@ -13,6 +13,13 @@ use serde_json::{json, Value};
 use std::collections::HashMap;
 use std::hash::BuildHasherDefault;
 
+fn fnv_bytes(b: &[u8]) -> u64 {
+    use std::hash::Hasher;
+    let mut h = FnvHasher::default();
+    h.write(b);
+    h.finish()
+}
+
 fn input(seed: u64, n: usize) -> Vec<(u64, f64)> {
     let mut rng = SplitMix64::new(seed ^ 0xC12);
     let mut v: Vec<(u64, f64)> = Vec::new();
@@ -87,6 +94,52 @@ pub fn sketch(cfg: usize, seed: u64) -> Vec<u64> {
             s.sketch_slice(&ids).unwrap();
             s.get_signature().iter().map(|x| *x as u64).collect()
         }
+        12 => {
+            // 3a through a std HashMap built by this instance (its RandomState differs per map and per process)
+            let mut s = ProbMinHash3a::<u64, FnvHasher>::new(m.max(2), u64::MAX);
+            let mut hm: HashMap<u64, f64> = HashMap::new();
+            for (i, w) in &data { hm.insert(*i, *w); }
+            s.hash_weigthed_hashmap(&hm);
+            s.get_signature().clone()
+        }
+        13 => {
+            let mut s = ProbMinHash2::<u64, FnvHasher>::new(m, u64::MAX);
+            let mut hm: HashMap<u64, f64> = HashMap::new();
+            for (i, w) in &data { hm.insert(*i, *w); }
+            s.hash_weigthed_hashmap::<std::collections::hash_map::RandomState>(&hm);
+            s.get_signature().clone()
+        }
+        14 => {
+            // Sha variant on heap objects: every instance allocates its own copies of the keys
+            let keys: Vec<Vec<u32>> = data.iter().map(|(i, _)| vec![*i as u32, (*i >> 32) as u32, 7]).collect();
+            let mut s = ProbMinHash3aSha::<Vec<u32>>::new(m.max(2), Vec::new());
+            let mut im: IndexMap<Vec<u32>, f64> = IndexMap::new();
+            for (k, (_, w)) in keys.iter().zip(data.iter()) { im.insert(k.clone(), *w); }
+            s.hash_weigthed_idxmap(&im);
+            s.get_signature().iter().map(|k| if k.len() == 3 { ((k[1] as u64) << 32) | k[0] as u64 } else { u64::MAX }).collect()
+        }
+        15 => {
+            let keys: Vec<Vec<u16>> = data.iter().map(|(i, _)| vec![*i as u16, (*i >> 16) as u16, (*i >> 32) as u16]).collect();
+            let mut s = ProbMinHash3aSha::<Vec<u16>>::new(m.max(2), Vec::new());
+            let mut hm: HashMap<Vec<u16>, f64> = HashMap::new();
+            for (k, (_, w)) in keys.iter().zip(data.iter()) { hm.insert(k.clone(), *w); }
+            s.hash_weigthed_hashmap(&hm);
+            s.get_signature().iter().map(|k| if k.len() == 3 { ((k[2] as u64) << 32) | ((k[1] as u64) << 16) | k[0] as u64 } else { u64::MAX }).collect()
+        }
+        16 => {
+            let mut s = ProbMinHash3aSha::<String>::new(m.max(2), String::new());
+            let mut im: IndexMap<String, f64> = IndexMap::new();
+            for (i, w) in &data { im.insert(format!("k\u{e9}y-{}", i), *w); }
+            s.hash_weigthed_idxmap(&im);
+            s.get_signature().iter().map(|k| fnv_bytes(k.as_bytes())).collect()
+        }
+        17 => {
+            let mut s = ProbMinHash3::<u64, FnvHasher>::new(m.max(2), u64::MAX);
+            let mut im: IndexMap<u64, f64> = IndexMap::new();
+            for (i, w) in &data { im.insert(*i, *w); }
+            s.hash_weigthed_idxmap(&im);
+            s.get_signature().clone()
+        }
         10 => {
             let mut s = OptDensMinHash::<f64, u64, FnvHasher>::new(m * 8, bh());
             s.sketch_slice(&ids).unwrap();
@@ -94,7 +147,7 @@ pub fn sketch(cfg: usize, seed: u64) -> Vec<u64> {
             v.extend(s.get_hsketch_u32().iter().map(|x| *x as u64));
             v
         }
-        _ => {
+        11 | _ => {
             let mut s = RevOptDensMinHash::<f32, u64, FnvHasher>::new(m * 8, bh());
             s.sketch_slice(&ids).unwrap();
             let mut v = s.get_hsketch_u64();
@@ -104,9 +157,11 @@ pub fn sketch(cfg: usize, seed: u64) -> Vec<u64> {
     }
 }
 
-pub const NCFG: usize = 36;
-pub const NAMES: [&str; 12] = ["ProbMinHash3", "ProbMinHash3a", "ProbMinHash3aSha", "ProbMinHash2", "ProbOrdMinHash2",
-    "SuperMinHash<f64>", "SuperMinHash<f32>", "SuperMinHash2", "SetSketcher<u16>", "SetSketcher<u32>", "OptDensMinHash", "RevOptDensMinHash"];
+pub const NCFG: usize = 54;
+pub const NAMES: [&str; 18] = ["ProbMinHash3", "ProbMinHash3a", "ProbMinHash3aSha", "ProbMinHash2", "ProbOrdMinHash2",
+    "SuperMinHash<f64>", "SuperMinHash<f32>", "SuperMinHash2", "SetSketcher<u16>", "SetSketcher<u32>", "OptDensMinHash", "RevOptDensMinHash",
+    "ProbMinHash3a (std HashMap)", "ProbMinHash2 (std HashMap)", "ProbMinHash3aSha<Vec<u32>>", "ProbMinHash3aSha<Vec<u16>>",
+    "ProbMinHash3aSha<String>", "ProbMinHash3 (IndexMap)"];
 
 pub fn run(args: &[String]) {
     let seed = arg_u64(args, "--seed", 1);
